@@ -33,16 +33,35 @@ ATOMS = ['a', 'b', 'x']
 CONCEPTS = [NO_CONCEPT, 'b']
 
 
+def _roles(model):
+    """plain, inverted with a prefixed role alignment (the alignment marker
+    then precedes the Push marker), aligned plain"""
+    a, b, c = models.ROLES[model][:3]
+    return [a, b + '~e.1', c + '~2']
+
+
+def _decoy(g):
+    """The diagnostics depend on their argument only: first query a graph
+    with the same top and triples but without any markers (a result cached
+    by top/triples would now be wrong for g)."""
+    from penman import layout
+    from penman.graph import Graph
+    d = Graph(list(g.triples), top=g.top)
+    layout.node_contexts(d)
+    for t in d.triples:
+        layout.appears_inverted(d, t)
+
+
 def h_diagnostics(model: str, n: int, **sym):
     from penman import layout
     from penman.tree import Tree
     real, ref = models.get(model)
-    node = progs.tree_program(sym, n, models.ROLES[model][:3], ATOMS,
-                              CONCEPTS)
+    node = progs.tree_program(sym, n, _roles(model), ATOMS, CONCEPTS)
     assume(well_formed(node, ref))
     top, triples, info = ref_interpret(node, ref)
     try:
         g = layout.interpret(Tree(progs.copy_tree(node)), real)
+        _decoy(g)
         ctx = layout.node_contexts(g)
         pushed = [layout.get_pushed_variable(g, t) for t in g.triples]
         inverted = [layout.appears_inverted(g, t) for t in g.triples]
@@ -71,11 +90,12 @@ def h_deep_diagnostics(model: str, depth: int, ntrail: int, **sym):
     from penman.tree import Tree
     from vflib.props.c02 import deep_tree
     real, ref = models.get(model)
-    node = deep_tree(sym, depth, ntrail, models.ROLES[model][:3])
+    node = deep_tree(sym, depth, ntrail, _roles(model))
     assume(well_formed(node, ref))
     top, triples, info = ref_interpret(node, ref)
     try:
         g = layout.interpret(Tree(progs.copy_tree(node)), real)
+        _decoy(g)
         ctx = layout.node_contexts(g)
         pushed = [layout.get_pushed_variable(g, t) for t in g.triples]
         inverted = [layout.appears_inverted(g, t) for t in g.triples]
